@@ -47,7 +47,7 @@ ASSUMPTIONS = [
 
 PI = np.pi
 AZ = (0.0, 0.7, PI / 2, PI, -1.1, -PI, 2 * PI + 0.3, 7.5)
-POLAR_IN = (0.0, 1e-9, 0.4, PI / 2, PI - 0.2, PI)
+POLAR_IN = (0.0, 1e-9, 0.4, PI / 2, PI - 0.2, PI - 1e-9, PI)
 POLAR_OUT = (-0.4, PI + 0.5, 2 * PI + 0.3)
 
 
@@ -55,7 +55,7 @@ def angle_pairs(seed, polar):
     out = []
     for i, (t, p) in enumerate(itertools.product(AZ, polar)):
         tj = lattice.jitter(seed, f"az{i}", t, 0.05) if t not in (0.0, PI, -PI, PI / 2) else t
-        pj = lattice.jitter(seed, f"po{i}", p, 0.05) if p not in (0.0, PI, PI / 2, 1e-9) else p
+        pj = lattice.jitter(seed, f"po{i}", p, 0.05) if p not in (0.0, PI, PI / 2, 1e-9, PI - 1e-9) else p
         out.append((tj, pj))
     return out
 
@@ -242,6 +242,77 @@ def _deriv_shard(arg):
     return res.as_dict()
 
 
+def _small_and_high(arg):
+    """(a) "every maximum degree": the output for l_max = 0 .. 8 is the leading block of the output for l_max = 12 (whose
+    rows are compared with the definition elsewhere), for both value routines, the derivative routine and the solid
+    harmonics.  (b) derivatives at high degree: d/d(azimuth) Y_lm = -m Y_l,-m exactly (oracle rows), d/d(polar) against
+    central differences of the float64 oracle."""
+    seed = arg
+    from grid.utils import (generate_derivative_real_spherical_harmonics, generate_real_spherical_harmonics,
+                            generate_real_spherical_harmonics_scipy, solid_harmonics)
+
+    res = WorkerResult(section="small-and-high-degree")
+    pairs = angle_pairs(seed, POLAR_IN)
+    theta = np.array([t for t, _ in pairs])
+    phi = np.array([p for _, p in pairs])
+    sph = np.stack([np.linspace(0.3, 2.0, len(theta)), theta, phi], axis=1)
+    fns = {"recursion": lambda L: generate_real_spherical_harmonics(L, theta, phi),
+           "scipy": lambda L: generate_real_spherical_harmonics_scipy(L, theta, phi),
+           "derivative": lambda L: generate_derivative_real_spherical_harmonics(L, theta, phi),
+           "solid": lambda L: solid_harmonics(L, sph)}
+    with warnings.catch_warnings():
+        warnings.simplefilter("ignore")
+        with np.errstate(all="ignore"):
+            for nm, fn in fns.items():
+                big = np.asarray(fn(12), dtype=float)
+                for L in range(0, 9):
+                    res.count()
+                    case = {"route": "small", "function": nm, "lmax": L}
+                    try:
+                        small = np.asarray(fn(L), dtype=float)
+                    except Exception as exc:
+                        res.violation(f"small-degree:{nm}:raised:{type(exc).__name__}", f"{nm} with l_max={L} raised {type(exc).__name__}: {exc}", case)
+                        continue
+                    n = (L + 1) ** 2
+                    lead = big[..., :n, :]
+                    res.nontrivial()
+                    if small.shape != lead.shape or not np.allclose(small, lead, rtol=1e-12, atol=1e-13, equal_nan=True):
+                        res.violation(f"small-degree:{nm}:not-the-leading-block", f"{nm} with l_max={L} (shape {small.shape}) is not the leading "
+                                      f"{n} rows of the l_max=12 output", case)
+            # (b)
+            LH = 40
+            keep = (np.abs(np.sin(phi)) > 1e-3)
+            th, ph = theta[keep], phi[keep]
+            out = np.asarray(generate_derivative_real_spherical_harmonics(LH, th, ph), dtype=float)
+            y = harm.ylm_f64_angles(LH, th, ph)
+            h = 1e-5
+            dpo = (harm.ylm_f64_angles(LH, th, ph + h) - harm.ylm_f64_angles(LH, th, ph - h)) / (2 * h)
+            lm = harm.horton_lm(LH)
+            daz = np.zeros_like(y)
+            for row, (l, m) in enumerate(lm):
+                if m:
+                    daz[row] = -m * y[harm.row_of(l, -m)]
+            res.count(2 * y.size)
+            res.nontrivial(n=len(lm))
+            case = {"route": "small", "function": "derivative-high", "lmax": LH}
+            lrow = np.array([l for l, _ in lm], dtype=float)[:, None]
+            if out.shape != (2,) + y.shape:
+                res.violation("derivative-high:shape", f"shape {out.shape}", case)
+            else:
+                e0 = np.abs(out[0] - daz) / (1 + np.abs(daz))
+                if np.any(_gt(e0, 1e-10 * (lrow + 1) ** 2)):
+                    r, j = np.unravel_index(np.argmax(e0), e0.shape)
+                    res.violation("derivative-high:azimuthal:differs-from--m-times-partner", f"d/d(azimuth) Y{lm[r]} at ({th[j]:.4g}, {ph[j]:.4g}) = "
+                                  f"{out[0, r, j]!r}, -m Y(l,-m) = {daz[r, j]!r}", case)
+                e1 = np.abs(out[1] - dpo) / (1 + np.abs(dpo))
+                if np.any(_gt(e1, 2e-6 * (lrow + 1) ** 2)):
+                    r, j = np.unravel_index(np.argmax(e1), e1.shape)
+                    res.violation("derivative-high:polar:differs-from-central-difference", f"d/d(polar) Y{lm[r]} at ({th[j]:.4g}, {ph[j]:.4g}) = "
+                                  f"{out[1, r, j]!r}, central difference of the reference {dpo[r, j]!r}", case)
+                res.maximum("deriv_high_polar_err", float(np.max(e1)))
+    return res.as_dict()
+
+
 def solid_and_conversion(ctx):
     from grid.utils import convert_cart_to_sph, solid_harmonics
 
@@ -321,6 +392,7 @@ def run(ctx):
         jobs.append(("deriv", (ld, ctx.seed, which)))
     for lmax in ((60, 200, 400) if ctx.thorough else (60, 200)):
         jobs.append(("high", (lmax, ctx.seed)))
+    jobs.append(("small", ctx.seed))
     for res in lattice.pmap(_dispatch, jobs, ctx.workers):
         ctx.merge(res)
     solid_and_conversion(ctx)
@@ -334,10 +406,12 @@ def run(ctx):
 
 def _dispatch(job):
     kind, arg = job
-    return {"values": _values_shard, "deriv": _deriv_shard, "high": _high_degree}[kind](arg)
+    return {"values": _values_shard, "deriv": _deriv_shard, "high": _high_degree, "small": _small_and_high}[kind](arg)
 
 
 def replay(ctx, case):
+    if case.get("route") == "small":
+        return ctx.merge(_small_and_high(ctx.seed))
     r = case.get("route")
     if r == "values":
         ctx.merge(_values_shard((case["lmax"], ctx.seed, case["which"])))
